@@ -189,6 +189,17 @@ Example C07_fixed_glued_update :
   /\ map (fun fs' => List.length (prims loc dh upd9 (fresh_state fs'))) tornStates = [3; 4; 4; 3]%nat.
 Proof. exact fixed_glued_update. Qed.
 
+(* ... and an update recorded by a new process after a kill at ANY of the nine points of that Close is shown by find, latest and recent
+   (the lookup scans the matches in reverse name order: next to its original the compacted copy is found, updated - and read by the
+   listings).  Bounded statement on the model; on the real store the enumeration runs this after-phase at every kill point of Close. *)
+Example C07_update_after_close_crash :
+  forallb (fun fs' => let fs2 := hfs (apply loc dh (fresh_state fs') upd9) in
+                      match fpayload (q_find loc dh fs2 a "req-bbbb-2"), snd (q_latest loc dh [] fs2 a None), snd (q_recent loc dh [] fs2 a 2) with
+                      | Some p, LOk p', [r1; r2] => Nat.eqb (p_tag p) 9 && Nat.eqb (p_tag p') 9 && Nat.eqb (p_tag r1) 9
+                                                   && String.eqb (p_req r1) "req-bbbb-2" && String.eqb (p_req r2) "req-aaaa-1"
+                      | _, _, _ => false end) closeStates = true.
+Proof. exact update_after_close_crash. Qed.
+
 (* ---- non-vacuity: the premises hold for traces whose last operation has 4 / 9 / 6 crash states ------------------------------ *)
 Example C07_premises_satisfiable :
   names_okb loc dh DE7 [] KE7 = true /\ closedb DE7 KE7 = true
